@@ -188,6 +188,33 @@ pub fn split_into_includes(src: &mut Src, prog: &[Stmt], pr: &Printed) -> Option
         return None;
     }
     let at = |k: usize| if k >= n { pr.text.len() } else { tops[k] };
+    // where a moved run starts with an annotated statement, the annotation lines may stay behind
+    // in the including file, directly in front of the include statement (they then belong to the
+    // first statement of the included file)
+    let mut from: Vec<usize> = (0..=n).map(at).collect();
+    for k in 0..n {
+        if matches!(prog[k], Stmt::Annotated(..)) && src.bool() {
+            let rest = &pr.text[tops[k]..at(k + 1)];
+            let mut cut = 0usize;
+            loop {
+                let tail = &rest[cut..];
+                let lead = tail.len() - tail.trim_start().len();
+                if tail[lead..].starts_with('@') {
+                    match tail[lead..].find('\n') {
+                        Some(nl) => cut += lead + nl + 1,
+                        None => break,
+                    }
+                } else {
+                    break;
+                }
+            }
+            if cut > 0 && cut < rest.len() {
+                from[k] = tops[k] + cut;
+            }
+        }
+    }
+    let at = |k: usize| if k >= n { pr.text.len() } else { tops[k] };
+    let _ = &at;
     // cut [i, j) out of the main text; inside it optionally cut [i2, j2) into a nested file
     let i = lo + src.below(n - lo);
     let j = i + 1 + src.below(n - i);
@@ -197,20 +224,20 @@ pub fn split_into_includes(src: &mut Src, prog: &[Stmt], pr: &Printed) -> Option
     let body0 = if nested {
         let i2 = i + src.below(j - i);
         let j2 = i2 + 1 + src.below(j - i2);
-        files.push(("inner.inc".to_string(), pr.text[at(i2)..at(j2)].to_string()));
-        format!("{}{}{}", &pr.text[at(i)..at(i2)], inc_line("inner.inc"), &pr.text[at(j2)..at(j)])
+        files.push(("inner.inc".to_string(), pr.text[from[i2]..at(j2)].to_string()));
+        format!("{}{}{}", &pr.text[from[i].min(from[i2])..from[i2]], inc_line("inner.inc"), &pr.text[at(j2)..at(j)])
     } else {
-        pr.text[at(i)..at(j)].to_string()
+        pr.text[from[i]..at(j)].to_string()
     };
     files.push(("part.inc".to_string(), body0));
-    let mut main = format!("{}{}", &pr.text[..at(i)], inc_line("part.inc"));
+    let mut main = format!("{}{}", &pr.text[..from[i]], inc_line("part.inc"));
     let mut n_inc = 1 + nested as usize;
     // optionally a second include further down
     if j < n && src.chance(1, 3) {
         let i3 = j + src.below(n - j);
         let j3 = i3 + 1 + src.below(n - i3);
-        files.push(("second.qasm".to_string(), pr.text[at(i3)..at(j3)].to_string()));
-        main.push_str(&pr.text[at(j)..at(i3)]);
+        files.push(("second.qasm".to_string(), pr.text[from[i3]..at(j3)].to_string()));
+        main.push_str(&pr.text[at(j)..from[i3]]);
         main.push_str(&inc_line("second.qasm"));
         main.push_str(&pr.text[at(j3)..]);
         n_inc += 1;
